@@ -174,7 +174,9 @@ func (h *HttpServer) readHTTPBody(r *http.Request) ([]byte, error) {
 		if requestCapApplied && (decompressedCap <= 0 || limit < decompressedCap) {
 			decompressedCap = limit
 			capIsRequestCap = true
-		} else if decompressedCap <= 0 && limit > 0 {
+		} else if decompressedCap == 0 && limit > 0 {
+			// 0 = derive; negative = the operator disabled the cap
+			// (SetMaxDecompressedBodySize), which decompressBounded honours.
 			decompressedCap = limit * 16
 		}
 		out, err := decompressBounded(encoding, body, decompressedCap)
